@@ -1,0 +1,27 @@
+//go:build verif
+
+package ed25519
+
+import "github.com/cloudflare/pat-go/ed25519/internal/edwards25519"
+
+// VerifScalarSignedRadix16 returns the signed radix-16 digits of a canonical scalar, one
+// two's-complement byte per digit (build tag verif only).
+func VerifScalarSignedRadix16(x []byte) []byte {
+	d := edwards25519.VerifSignedRadix16(verifScalar(x))
+	out := make([]byte, len(d))
+	for i, v := range d {
+		out[i] = byte(v)
+	}
+	return out
+}
+
+// VerifScalarNonAdjacentForm returns the width-w NAF digits of a canonical scalar, one
+// two's-complement byte per digit (build tag verif only).
+func VerifScalarNonAdjacentForm(x []byte, w uint) []byte {
+	d := edwards25519.VerifNonAdjacentForm(verifScalar(x), w)
+	out := make([]byte, len(d))
+	for i, v := range d {
+		out[i] = byte(v)
+	}
+	return out
+}
